@@ -322,6 +322,12 @@ func (s *Session) Write(b []byte) (n int, err error) {
 		s.writeDeadline.Store(0)
 	}()
 
+	if s.isClient && s.isState(sessionAttached) && !s.openSessionRequestSent.Load() {
+		// The peer learns about the session now.
+		// This is when the idle time of the session starts.
+		s.lastRXTime.Store(time.Now().UnixMicro())
+	}
+
 	// Before the first write, client needs to send open session request.
 	// Open session request is sent only once. Underlay may retry if the packet is lost.
 	if s.isClient && s.isState(sessionAttached) && !s.openSessionRequestSent.Swap(true) {
